@@ -401,6 +401,7 @@ def _make_inner(env, variant, exc_id):
 
 
 def _make_new(env, variant):
+    variant = variant.partition('>')[0]
     if variant == 'base':
         return NewInterrupt('new interrupt')
     if variant == 'same':
@@ -467,6 +468,13 @@ def _run_body(env, ctx, body, path, exc_id):
         elif k == 'raise_new':
             e = _make_new(env, op[1])
             env.news[p] = e
+            how = op[1].partition('>')[2]
+            if how == 'saved':
+                raise e from env.excs[exc_id]
+            if how == 'none':
+                raise e from None
+            if how == 'other':
+                raise e from OtherError('unrelated cause')
             raise e
         elif k == 'force':
             ctx.force_reraise()
@@ -580,8 +588,14 @@ def run_program(case, sub='sare', preds=None):
 ENUM_SIMPLE = (['raise_catch', 'inner'], ['raise_catch', 'samecls'],
                ['set', True], ['set', False], ['strip_tb'], ['capture'],
                ['force_caught'])
+# raise_new variants: class of the new exception, optionally '>' how it is
+# chained: 'saved' = raise New() from <the saved exception>, 'none' = from
+# None, 'other' = from an unrelated exception.  Chaining is the body's
+# business and must not change what the helper does.
 ENUM_TERMINAL = (['raise_new', 'plain'], ['raise_new', 'base'],
-                 ['raise_new', 'same'], ['force'], ['bare'])
+                 ['raise_new', 'same'], ['raise_new', 'plain>saved'],
+                 ['raise_new', 'same>none'], ['raise_new', 'plain>other'],
+                 ['force'], ['bare'])
 
 
 @functools.lru_cache(maxsize=None)
